@@ -401,6 +401,7 @@ func runC05(r *Run) {
 						// the victim (a *Line) must be written back: some call receives BOTH ev.Boundary[0] (possibly
 						// converted) as the address and ev.Data as the bytes
 						mode := "victim-discarded"
+						wbPos := token.NoPos
 						if ev != nil {
 							mode = "victim-not-written"
 							isField := func(e ast.Expr, field string) bool {
@@ -440,10 +441,28 @@ func runC05(r *Run) {
 								switch {
 								case hasData && hasBase:
 									mode = "victim-written-at-its-own-base"
+									wbPos = c2.Pos()
 								case hasData && hasNewBase && mode != "victim-written-at-its-own-base":
 									mode = "victim-written-at-the-inserted-line's-address"
 								case hasData && mode == "victim-not-written":
 									mode = "victim-written-at-unknown-address"
+								}
+								return true
+							})
+						}
+						// nothing leaves the function between the insertion and the write-back, except "there is no victim"
+						if mode == "victim-written-at-its-own-base" && wbPos != token.NoPos && ev != nil {
+							ast.Inspect(fd.Body, func(k ast.Node) bool {
+								is, ok := k.(*ast.IfStmt)
+								if ok {
+									if b, ok := ast.Unparen(is.Cond).(*ast.BinaryExpr); ok && b.Op == token.EQL && info.Types[b.Y].IsNil() {
+										if id, ok := ast.Unparen(b.X).(*ast.Ident); ok && info.Uses[id] == ev {
+											return false // the guard "no victim": its return is legitimate
+										}
+									}
+								}
+								if rs, ok := k.(*ast.ReturnStmt); ok && rs.Pos() > call.End() && rs.Pos() < wbPos {
+									mode = "victim-not-written-on-an-early-return"
 								}
 								return true
 							})
